@@ -8,9 +8,10 @@
  *
  * Every callee contract used by more than one unit lives here, so that the unit that ENFORCES a contract and the
  * units that REPLACE calls by it read the very same text.
- *   find_cached_block, reuse_cache, flush_cached_blocks : enforced in cache.c
- *   raw_read_blk, raw_write_blk                          : enforced in raw.c
- *   unix_read_blk64, unix_write_blk64                    : enforced in rw.c
+ *   find_cached_block, reuse_cache, flush_cached_blocks : enforced in cache.c; replaced in rw.c (reuse, flush), chan.c (flush)
+ *   raw_read_blk, raw_write_blk                          : enforced in raw.c;   replaced in cache.c, rw.c
+ * (unix_read_blk64, unix_write_blk64: rw.c; the other channel operations: chan.c; open mode, C13: open.c;
+ *  io_channel_* wrappers: iomgr.c)
  *
  * Configuration macros (per unit, through "defines"):
  *   CFG_BS=n      block size fixed to n, the eight cache buffers are eight static arrays of exactly n bytes
@@ -63,12 +64,8 @@ unsigned int g_nreads;
 int g_wfail;			/* ghost: some device write has failed */
 char *g_cbuf[8];		/* ghost: the eight cache buffers as allocated */
 const unsigned char *g_keep;	/* ghost: address of the byte of the CALLER's buffer that corresponds to L* (0: none) */
-/* ghost copies of the arguments of unix_read_blk64 / unix_write_blk64 on entry (for the in-place loop invariants) */
-unsigned long long g_block0;
-int g_count0;
 int g_covered;			/* the request covers L* */
 unsigned char g_new;		/* the byte the caller writes at L* */
-int g_t0;			/* data->access_time on entry */
 
 #define E(i) (data->cache[i])
 #define MATCH(i) (E(i).in_use && E(i).block == g_bstar)
@@ -114,10 +111,8 @@ int g_t0;			/* data->access_time on entry */
 	!(__CPROVER_POINTER_OFFSET(g_keep) >= __CPROVER_POINTER_OFFSET(p) && \
 	  (unsigned long long)(__CPROVER_POINTER_OFFSET(g_keep) - __CPROVER_POINTER_OFFSET(p)) < (unsigned long long)(n)))
 
-/* frames: an entry without its buffer pointer; only the state bits of an entry */
-#define ENTRY_FIELDS(i) E(i).block, E(i).access_time, E(i).dirty, E(i).in_use, E(i).write_err
+/* frames: the state bits of an entry; the eight cache buffers */
 #define ENTRY_BITS(i) E(i).dirty, E(i).in_use, E(i).write_err
-#define ALL_ENTRY_FIELDS ENTRY_FIELDS(0), ENTRY_FIELDS(1), ENTRY_FIELDS(2), ENTRY_FIELDS(3), ENTRY_FIELDS(4), ENTRY_FIELDS(5), ENTRY_FIELDS(6), ENTRY_FIELDS(7)
 #define ALL_ENTRY_BITS ENTRY_BITS(0), ENTRY_BITS(1), ENTRY_BITS(2), ENTRY_BITS(3), ENTRY_BITS(4), ENTRY_BITS(5), ENTRY_BITS(6), ENTRY_BITS(7)
 #define ALL_CBUFS __CPROVER_object_whole(g_cbuf[0]), __CPROVER_object_whole(g_cbuf[1]), __CPROVER_object_whole(g_cbuf[2]), \
 	__CPROVER_object_whole(g_cbuf[3]), __CPROVER_object_whole(g_cbuf[4]), __CPROVER_object_whole(g_cbuf[5]), \
@@ -133,37 +128,14 @@ int g_t0;			/* data->access_time on entry */
 #define CACHE_RANGE_OK(ch, data) (ALL(LABEL_OK) && RAW_RANGE_OK(ch, data, 0ULL, 1))
 #define ATIME_OK(data) ((data)->access_time >= 0 && (data)->access_time < 0x7fffff00)
 
-/*
- * The same vocabulary spelled over the harness objects (DATA, CB0..CB7) instead of through `data->` and the buffer
- * pointers.  ONLY for the in-place loop invariants: CBMC instruments every pointer dereference inside an invariant with
- * six safety assertions that each repeat the invariant's prefix, which makes invariants written through pointers
- * prohibitively large; `data` and the buffer pointers are not assigned by the loops, so both spellings denote the same
- * locations (the function contracts, which are what callers see, use the pointer spelling).
- */
-extern struct unix_private_data DATA;
 #ifdef CFG_BS
 static char CB0[CFG_BS], CB1[CFG_BS], CB2[CFG_BS], CB3[CFG_BS], CB4[CFG_BS], CB5[CFG_BS], CB6[CFG_BS], CB7[CFG_BS];
-#define G(i) (DATA.cache[i])
-#define GBYTE(i) (CB##i[g_ostar])
-#define GMATCH(i) (G(i).in_use && G(i).block == g_bstar)
-#define GENTRY_OK(i, L) (!GMATCH(i) || (GBYTE(i) == (char)(L) && (G(i).dirty || g_disk == (L))))
-#define GNMATCH (GMATCH(0) + GMATCH(1) + GMATCH(2) + GMATCH(3) + GMATCH(4) + GMATCH(5) + GMATCH(6) + GMATCH(7))
-#define GCOHERENT_L(L) (GNMATCH == 0 ? g_disk == (L) : (GNMATCH == 1 && GENTRY_OK(0, L) && GENTRY_OK(1, L) && GENTRY_OK(2, L) && \
-	GENTRY_OK(3, L) && GENTRY_OK(4, L) && GENTRY_OK(5, L) && GENTRY_OK(6, L) && GENTRY_OK(7, L)))
-#define GINUSE_DIRTY(i) (G(i).in_use && G(i).dirty)
-#define GENTRY_FIELDS(i) G(i).block, G(i).access_time, G(i).dirty, G(i).in_use, G(i).write_err
-#define GALL_ENTRY_FIELDS GENTRY_FIELDS(0), GENTRY_FIELDS(1), GENTRY_FIELDS(2), GENTRY_FIELDS(3), GENTRY_FIELDS(4), GENTRY_FIELDS(5), GENTRY_FIELDS(6), GENTRY_FIELDS(7)
-/* block, access_time and the state bits of entry i as ONE byte range (everything but the buffer pointer) */
-#define GENTRY_SLICE(i) __CPROVER_object_upto((char *)&G(i).block, sizeof(G(i)) - __builtin_offsetof(struct unix_cache, block))
-#define GALL_ENTRY_SLICES GENTRY_SLICE(0), GENTRY_SLICE(1), GENTRY_SLICE(2), GENTRY_SLICE(3), GENTRY_SLICE(4), GENTRY_SLICE(5), GENTRY_SLICE(6), GENTRY_SLICE(7)
-#define GALL_CBUFS __CPROVER_object_whole(CB0), __CPROVER_object_whole(CB1), __CPROVER_object_whole(CB2), __CPROVER_object_whole(CB3), \
-	__CPROVER_object_whole(CB4), __CPROVER_object_whole(CB5), __CPROVER_object_whole(CB6), __CPROVER_object_whole(CB7)
 #endif
-/* ---- macros above are plain text: they are defined before the real file so that the named loop-invariant anchors can use them ---- */
+/* ---- the macros above are plain text: they are defined before the real file so that named loop-invariant anchors (raw.c) can use them ---- */
 #include "lib/ext2fs/unix_io.c"
 
 static struct struct_io_channel CH;
-struct unix_private_data DATA;
+static struct unix_private_data DATA;
 
 static int coherent(struct unix_private_data *data) { return COHERENT; }
 /* coherent w.r.t. an explicitly given 'most recently written' byte */
@@ -171,21 +143,6 @@ static int coherent_l(struct unix_private_data *data, unsigned char l) { return 
 static int any_dirty(struct unix_private_data *data) { return ANY(INUSE_DIRTY); }
 static int any_inuse(struct unix_private_data *data) { return ANY(INUSE); }
 static int bufs_tied(struct unix_private_data *data) { return ALL(BUF_TIED); }
-
-#if !defined(VERIF_NATIVE) && !defined(CFG_OWN_MEMCPY)
-/*
- * libc memcpy as seen by the cache layer (CBMC's byte-array model with a symbolic length is what made the monolithic
- * attempt run out of memory): source readable / destination writable for n bytes are obligations at every call; the copy
- * is faithful at byte index g_ostar (true of memcpy at every index); all other bytes of the destination OBJECT become
- * unconstrained (over-approximation) except the tracked caller byte *g_keep when it lies outside [dst, dst+n).
- */
-void *memcpy(void *dst, const void *src, size_t n)
-	REQUIRES(__CPROVER_r_ok(src, n) && __CPROVER_w_ok(dst, n))
-	ASSIGNS(__CPROVER_object_whole(dst))
-	ENSURES(RET == dst)
-	ENSURES(g_ostar >= n || ((const unsigned char *)dst)[g_ostar] == ((const unsigned char *)src)[g_ostar])
-	ENSURES(!KEEP_OUTSIDE(dst, n) || *g_keep == OLD(*g_keep));
-#endif
 
 /* ------------------------------------------------------------------ the device (enforced in raw.c) */
 /*
@@ -294,6 +251,7 @@ static errcode_t reuse_cache(io_channel channel, struct unix_private_data *data,
 /*
  * flush_cached_blocks.  Frame: the state bits of the eight entries (labels, buffers and buffer pointers stay), the device.
  */
+#define BITS_SHRINK(i) ((!E(i).dirty || OLD(E(i).dirty)) && (!E(i).in_use || OLD(E(i).in_use)))
 static errcode_t flush_cached_blocks(io_channel channel, struct unix_private_data *data, int flags)
 	REQUIRES(coherent(data) && channel->write_error == 0 && !(data->flags & IO_FLAG_THREADS))
 	REQUIRES(CACHE_RANGE_OK(channel, data))
@@ -303,6 +261,9 @@ static errcode_t flush_cached_blocks(io_channel channel, struct unix_private_dat
 	ENSURES(RET == 0 || g_nwrites > 0)
 	ENSURES(RET == 0 ? g_wfail == OLD(g_wfail) : g_wfail == 1)
 	ENSURES(ALIGN_STEP(channel))
+	/* flushing only ever CLEARS state bits: no entry becomes dirty or valid */
+	ENSURES(BITS_SHRINK(0) && BITS_SHRINK(1) && BITS_SHRINK(2) && BITS_SHRINK(3) && BITS_SHRINK(4) && BITS_SHRINK(5) &&
+		BITS_SHRINK(6) && BITS_SHRINK(7))
 	ASSIGNS(ALL_ENTRY_BITS, data->io_stats.bytes_written, channel->align, g_disk, g_nwrites, g_wfail);
 
 static void build_channel(void)
